@@ -118,4 +118,118 @@ theorem close_applies_parked_shrink {c c' : Cap} {id i : Nat} {k : Int} {rest : 
   simp only [grant, hw] at h1 h2 ⊢
   omega
 
+/-! ## The head of the queue never fits (`HeadBlocked`), hence a parked shrink means "over the cap" -/
+
+/-- x/sync's queue discipline: whoever is first in the queue does not fit (otherwise `notifyWaiters` /
+the fast path would have granted it) -/
+def HeadBlocked (c : Cap) : Prop := ∀ w rest, c.waiters = w :: rest → c.size - c.cur < w.n
+
+theorem notify_headBlocked (ws : List Waiter) (c : Cap) : HeadBlocked (notify c ws) := by
+  induction ws generalizing c with
+  | nil => intro w rest h; simp [notify] at h
+  | cons v r ih =>
+    unfold notify
+    split
+    · rename_i hno
+      intro w rest h
+      simp only [List.cons.injEq] at h
+      obtain ⟨h1, _⟩ := h
+      subst h1; exact hno
+    · exact ih _
+
+theorem semAcquire_headBlocked {c : Cap} (h : HeadBlocked c) (v : Waiter) : HeadBlocked (semAcquire c v) := by
+  unfold semAcquire
+  split
+  · rename_i hfit
+    intro w rest hw
+    rw [grant_waiters, hfit.2] at hw
+    cases hw
+  · rename_i hno
+    intro w rest hw
+    cases hc : c.waiters with
+    | nil =>
+      simp only [hc, List.nil_append, List.cons.injEq] at hw
+      obtain ⟨h1, _⟩ := hw
+      subst h1
+      have : ¬ (c.size - c.cur ≥ v.n) := fun hh => hno ⟨hh, hc⟩
+      simp only; omega
+    | cons u r =>
+      simp only [hc, List.cons_append, List.cons.injEq] at hw
+      obtain ⟨h1, _⟩ := hw
+      subst h1
+      exact h u r hc
+
+theorem headBlocked_new (n : Int) : HeadBlocked (newCap n) := by
+  intro w rest h; simp [newCap] at h
+
+theorem headBlocked_step {c c' : Cap} {a : Act} (h : HeadBlocked c) (hs : step c a = some c') : HeadBlocked c' := by
+  cases a <;> simp only [step] at hs
+  case acquire id => split at hs <;> cases hs; exact semAcquire_headBlocked h _
+  case acceptDone id => split at hs <;> cases hs; exact h
+  case connClose id =>
+    split at hs
+    · split at hs <;> cases hs; exact notify_headBlocked _ _
+    · split at hs <;> cases hs; exact h
+  case setMax n => split at hs <;> cases hs; exact h
+  case adjust id =>
+    cases ht : takeAdj id c.pending with
+    | none => simp [ht] at hs
+    | some q =>
+      obtain ⟨d, rest⟩ := q
+      simp only [ht] at hs
+      split at hs
+      · split at hs <;> cases hs; exact notify_headBlocked _ _
+      · split at hs
+        · cases hs; exact semAcquire_headBlocked (c := { c with pending := rest }) h _
+        · cases hs; exact h
+
+theorem adjSum_nonneg (ws : List Waiter) (hpos : ∀ w ∈ ws, w.kind = WKind.adj → 0 < w.n) : 0 ≤ adjSum ws := by
+  induction ws with
+  | nil => simp [adjSum]
+  | cons v r ih =>
+    have := ih (fun w hw => hpos w (List.mem_cons_of_mem _ hw))
+    have hv := hpos v (List.mem_cons_self ..)
+    simp only [adjSum]
+    split
+    · rename_i hk; have := hv hk; omega
+    · omega
+
+theorem adjSum_pos_of_mem (ws : List Waiter) (hpos : ∀ w ∈ ws, w.kind = WKind.adj → 0 < w.n)
+    (hex : ∃ w ∈ ws, w.kind = WKind.adj) : 1 ≤ adjSum ws := by
+  induction ws with
+  | nil => obtain ⟨w, hw, _⟩ := hex; cases hw
+  | cons v r ih =>
+    have hr := adjSum_nonneg r (fun w hw => hpos w (List.mem_cons_of_mem _ hw))
+    simp only [adjSum]
+    by_cases hk : v.kind = WKind.adj
+    · have := hpos v (List.mem_cons_self ..) hk
+      simp only [hk, if_true]; omega
+    · simp only [hk, if_false]
+      obtain ⟨w, hw, hwk⟩ := hex
+      rcases List.mem_cons.mp hw with e | e
+      · subst e; exact absurd hwk hk
+      · have := ih (fun w hw => hpos w (List.mem_cons_of_mem _ hw)) ⟨w, e, hwk⟩
+        omega
+
+/-- With every spawned adjustment executed (`pending = []`), a shrink that is still parked means that more
+units are in use than the configured cap: as soon as the connections fit into the cap, no shrink is parked. -/
+theorem parked_means_over_cap {c : Cap} (hinv : CapInv c) (hpos : AdjPos c) (hhead : HeadBlocked c)
+    (hp : c.pending = []) (hex : ∃ w ∈ c.waiters, w.kind = WKind.adj) :
+    c.realCap < ((c.inAccept.length + c.opened.length : Nat) : Int) := by
+  have hsz := hinv.size; have hcnt := hinv.count; have hbook := hinv.book
+  rw [hp] at hbook
+  simp only [pendSum] at hbook
+  have hsum := adjSum_pos_of_mem c.waiters hpos hex
+  cases hc : c.waiters with
+  | nil => obtain ⟨w, hw, _⟩ := hex; rw [hc] at hw; cases hw
+  | cons w0 rest =>
+    have hb := hhead w0 rest hc
+    by_cases hk : w0.kind = WKind.adj
+    · have hr := adjSum_nonneg rest (fun w hw => hpos w (by rw [hc]; exact List.mem_cons_of_mem _ hw))
+      have : adjSum c.waiters = w0.n + adjSum rest := by rw [hc]; simp [adjSum, hk]
+      omega
+    · have hu : w0.kind = WKind.unit := by cases hkk : w0.kind <;> simp_all
+      have h1 := hinv.unit1 w0 (by rw [hc]; exact List.mem_cons_self ..) hu
+      omega
+
 end EgVerif.ConnCap
